@@ -62,7 +62,7 @@ Init == /\ pos = [n \in Nodes |-> 0] /\ clk = 0
         /\ armed = [n \in Nodes |-> TRUE] /\ delayed = [n \in Nodes |-> FALSE]
         /\ pub = {} /\ got = [n \in Nodes |-> {}]
         /\ cnt = [dlv |-> 0, rst |-> 0, syn |-> 0]
-        /\ lab = [kind |-> "init"] /\ hist = <<>>
+        /\ lab = [kind |-> "init", rare |-> FALSE] /\ hist = <<>>
 
 ---------------------------------------------------------------------------
 (* the ceremony's publication attempts of node n (identity n) at position p: broadcastPublicFipKey /        *)
@@ -101,7 +101,7 @@ Step(k, n) == [k |-> k, n |-> n, ms |-> <<>>, via |-> "one", sh |-> 0, nf |-> 0]
 Release ==
     /\ clk < MaxPos /\ \A n \in Nodes : clk - pos[n] < MaxLag
     /\ clk' = clk + 1
-    /\ lab' = [kind |-> "rel"] /\ hist' = Append(hist, Step("rel", 0))
+    /\ lab' = [kind |-> "rel", rare |-> FALSE] /\ hist' = Append(hist, Step("rel", 0))
     /\ UNCHANGED <<pos, pool, ksent, psent, armed, delayed, pub, got, cnt>>
 
 Adv(n) ==
@@ -115,7 +115,8 @@ Adv(n) ==
           /\ delayed' = [delayed EXCEPT ![n] = IF RelPos(p) = 1 THEN TRUE ELSE IF p = 7 THEN FALSE ELSE @]
           /\ armed' = [armed EXCEPT ![n] = IF p = 7 THEN ~AfterV(p, clk) ELSE @]
           /\ lab' = [kind |-> "adv:" \o PosName(p) \o ":" \o DidName(st.did) \o Lagging(n, p) \o
-                              (IF p = 7 THEN ":" \o Holding(n) ELSE "") \o (IF st2.pool.stop /\ ~pool[n].stop THEN ":stop" ELSE "")]
+                              (IF p = 7 THEN ":" \o Holding(n) ELSE "") \o (IF st2.pool.stop /\ ~pool[n].stop THEN ":stop" ELSE ""),
+                     rare |-> clk > p /\ st.did # <<>>]
     /\ hist' = Append(hist, Step("adv", n))
     /\ UNCHANGED <<clk, cnt>>
 
@@ -125,7 +126,7 @@ Timer(n) ==
     /\ LET p == pos[n]
            st == IF RelPos(p) \in 1..6 THEN Try(n, p, St(n), 0) ELSE St(n)
        IN /\ Install(n, st)
-          /\ lab' = [kind |-> "timer:" \o DidName(st.did) \o ":" \o PosName(p)]
+          /\ lab' = [kind |-> "timer:" \o DidName(st.did) \o ":" \o PosName(p), rare |-> st.did # <<>> /\ RelPos(p) = 1]
     /\ armed' = [armed EXCEPT ![n] = FALSE]
     /\ hist' = Append(hist, Step("timer", n))
     /\ UNCHANGED <<pos, clk, delayed, cnt>>
@@ -135,7 +136,7 @@ Delayed(n) ==
     /\ "delayed" \in Acts /\ delayed[n]
     /\ LET st == Try(n, pos[n], St(n), 1)
        IN /\ Install(n, st)
-          /\ lab' = [kind |-> "delayed:" \o DidName(st.did) \o ":" \o PosName(pos[n])]
+          /\ lab' = [kind |-> "delayed:" \o DidName(st.did) \o ":" \o PosName(pos[n]), rare |-> st.did # <<>> /\ RelPos(pos[n]) = 1]
     /\ delayed' = [delayed EXCEPT ![n] = FALSE]
     /\ hist' = Append(hist, Step("delayed", n))
     /\ UNCHANGED <<pos, clk, armed, cnt>>
@@ -151,7 +152,8 @@ Restart(n) ==
        IN /\ Install(n, st2)
           /\ delayed' = [delayed EXCEPT ![n] = RelPos(p) = 1]
           /\ armed' = [armed EXCEPT ![n] = ArmedAfterRestart(p, clk)]
-          /\ lab' = [kind |-> "restart:" \o PosName(p) \o ":" \o Holding(n) \o ":" \o DidName(st.did) \o (IF pool[n].own # {} THEN ":own" ELSE "")]
+          /\ lab' = [kind |-> "restart:" \o PosName(p) \o ":" \o Holding(n) \o ":" \o DidName(st.did) \o (IF pool[n].own # {} THEN ":own" ELSE ""),
+                     rare |-> p = 7 \/ st.did # <<>>]
     /\ cnt' = [cnt EXCEPT !.rst = @ + 1]
     /\ hist' = Append(hist, Step("restart", n))
     /\ UNCHANGED <<pos, clk>>
@@ -171,7 +173,8 @@ Deliver(n, ms, via) ==
           /\ lab' = [kind |-> IF Len(ms) = 1
                               THEN "dlv:" \o ToString(m1.kd) \o ":" \o m1.c \o ":" \o c1 \o ":" \o PhaseName(pos[n]) \o
                                    (IF m1.snd = n THEN ":self" ELSE "") \o (IF m1.r # RoundOf(pos[n]) THEN ":otherround" ELSE "")
-                              ELSE "dlv:batch:" \o via]
+                              ELSE "dlv:batch:" \o via,
+                     rare |-> pos[n] = 7]
           /\ hist' = Append(hist, [Step("dlv", n) EXCEPT !.ms = [i \in 1..Len(ms) |-> [kd |-> recs[i].kd, a |-> recs[i].a, c |-> recs[i].c, r |-> recs[i].r]],
                                                          !.via = via])
     /\ cnt' = [cnt EXCEPT !.dlv = @ + Len(ms)]
@@ -187,7 +190,8 @@ Sync(n, sh, nf) ==
                                            ELSE IF sh = 2 THEN "othershard"
                                            ELSE IF ok = {} /\ op = {} /\ PrioK(U, pool[n]) = {} /\ PrioP(U, pool[n]) = {} THEN "capped"
                                            ELSE IF PrioK(U, pool[n]) # {} \/ PrioP(U, pool[n]) # {} THEN "priority" ELSE "offer") \o
-                              (IF nf = 1 THEN ":nofilter" ELSE "") \o (IF pos[n] >= 7 THEN ":round2" ELSE "")]
+                              (IF nf = 1 THEN ":nofilter" ELSE "") \o (IF pos[n] >= 7 THEN ":round2" ELSE ""),
+                     rare |-> held # {} /\ ~pool[n].stop /\ sh # 2 /\ ok = {} /\ op = {} /\ PrioK(U, pool[n]) = {} /\ PrioP(U, pool[n]) = {}]
     /\ cnt' = [cnt EXCEPT !.syn = @ + 1]
     /\ hist' = Append(hist, [Step("sync", n) EXCEPT !.sh = sh, !.nf = nf])
     /\ UNCHANGED <<pos, clk, ksent, psent, armed, delayed, pub, got>>
@@ -260,7 +264,7 @@ NoSplit == \A a \in Authors, n1 \in Nodes, n2 \in Nodes :
 ---------------------------------------------------------------------------
 (* export: one schedule per transition class (sampled); the kind names the class *)
 Boring == {"init", "rel"}
-Export == IF ExportOn /\ lab'.kind \notin Boring /\ RandomElement(1..SampleMod) = 1
+Export == IF ExportOn /\ lab'.kind \notin Boring /\ (lab'.rare \/ RandomElement(1..SampleMod) = 1)
           THEN PrintT(ToJson([kind |-> lab'.kind, nodes |-> NN, steps |-> hist']))
           ELSE TRUE
 \* simulation export (an INVARIANT; in simulation mode TLC evaluates it on every candidate successor of the state a walk has
